@@ -110,3 +110,14 @@ Theorem C12_get_dx_increasing : forall (g : list (R * R)) (f1 f2 : R),
   0 < f1 -> f1 < f2 -> f2 < 1 -> get_dx RN g f1 < get_dx RN g f2.
 Proof. exact LMono.get_dx_increasing. Qed.
 Print Assumptions C12_get_dx_increasing.
+
+(* closed corollary for the slurry object's D15 / D50 / D85 input (D50 above the pseudo-liquid limit): every diameter
+   of the generated grading is positive and its lookup is strictly increasing over the whole of (0, 1) *)
+From DHV Require Import LC12f.
+Theorem C12_three_point_get_dx_increasing : forall (d15 d50 d85 Dp nu rhol rhos : R),
+  0 < d15 < d50 /\ d50 < d85 -> 0 < Framework.pseudo_dlim RN Dp nu rhol rhos < d50 ->
+  let res := create_fracs RN [(15 / 100, d15); (50 / 100, d50); (85 / 100, d85)] Dp nu rhol rhos 10 in
+  Forall (fun p => 0 < snd p) res /\
+  forall f1 f2, 0 < f1 -> f1 < f2 -> f2 < 1 -> get_dx RN res f1 < get_dx RN res f2.
+Proof. exact LC12f.three_point_get_dx_increasing. Qed.
+Print Assumptions C12_three_point_get_dx_increasing.
